@@ -405,7 +405,7 @@ class Executor:
             st.apc.append(self._as_bool(c))
             return
         if s.startswith("StorageLive") or s.startswith("StorageDead") or s == "nop" or s.startswith("FakeRead") \
-                or s.startswith("PlaceMention") or s.startswith("Retag") or s.startswith("Coverage"):
+                or s.startswith("PlaceMention") or s.startswith("Retag") or s.startswith("Coverage") or s == "ConstEvalCounter":
             return
         if s.startswith("copy_nonoverlapping("):
             raise Unsupported("copy_nonoverlapping")
@@ -537,13 +537,14 @@ class Executor:
         return None
 
     def _feasible(self, st, c):
-        s = z3.Solver()
+        self.nfeas = getattr(self, "nfeas", 0) + 1
+        s = z3.SolverFor("QF_BV")
         s.set("timeout", self.feas_timeout_ms)
         for d in st.defs:
             s.add(d)
+        # branch conditions only: dropping the assert-derived facts can only make more paths
+        # look feasible (never prunes a real one) and keeps 256-bit overflow terms out
         for p in st.pc:
-            s.add(p)
-        for p in st.apc:
             s.add(p)
         s.add(c)
         r = s.check()
@@ -1438,11 +1439,53 @@ def _i_slice_index(ex, st, fr, callee, args):
     return Slice(sl.arr, simp(_t64(sl.off) + start), simp(end - start))
 
 
+def _i_num_method(ex, st, fr, callee, args):
+    m = re.search(r"(?:core|std)::num::<impl (\w+)>::(\w+)$", strip_generics(callee))
+    ty, meth = m.group(1), m.group(2)
+    bits, signed = INT_TYPES[ty]
+    a = args[0]
+    if meth in ("wrapping_add", "wrapping_sub", "wrapping_mul", "unchecked_add", "unchecked_sub", "unchecked_mul"):
+        op = {"add": "Add", "sub": "Sub", "mul": "Mul"}[meth.split("_")[1]]
+        return ex._binop(op, a, args[1])
+    if meth == "wrapping_neg":
+        return Int(a.ty, simp(-a.t))
+    if meth in ("wrapping_shl", "wrapping_shr", "unchecked_shl", "unchecked_shr"):
+        return ex._binop("Shl" if meth.endswith("shl") else "Shr", a, args[1])
+    if meth == "leading_zeros":
+        return _i_ctlz(ex, st, fr, callee, args)
+    if meth == "trailing_zeros":
+        return _i_cttz(ex, st, fr, callee, args)
+    if meth == "rotate_right":
+        return _i_rotr(ex, st, fr, callee, args)
+    if meth == "rotate_left":
+        return _i_rotl(ex, st, fr, callee, args)
+    if meth in ("overflowing_add", "overflowing_sub", "overflowing_mul"):
+        op = {"add": "AddWithOverflow", "sub": "SubWithOverflow", "mul": "MulWithOverflow"}[meth.split("_")[1]]
+        return ex._binop(op, a, args[1])
+    if meth in ("saturating_sub", "saturating_add") and not signed:
+        b = args[1]
+        if meth == "saturating_sub":
+            return Int(a.ty, simp(z3.If(z3.ULT(a.t, b.t), z3.BitVecVal(0, bits), a.t - b.t)))
+        s_ = a.t + b.t
+        return Int(a.ty, simp(z3.If(z3.ULT(s_, a.t), z3.BitVecVal((1 << bits) - 1, bits), s_)))
+    if meth in ("min", "max"):
+        b = args[1]
+        lt = (a.t < b.t) if signed else z3.ULT(a.t, b.t)
+        return Int(a.ty, simp(z3.If(lt, a.t, b.t) if meth == "min" else z3.If(lt, b.t, a.t)))
+    if meth == "abs" and signed:
+        return Int(a.ty, simp(z3.If(a.t < 0, -a.t, a.t)))
+    if meth == "unsigned_abs" and signed:
+        uty = "u" + ty[1:]
+        return Int(uty, simp(z3.If(a.t < 0, -a.t, a.t)))
+    raise Unsupported("core::num method " + meth)
+
+
 def _i_identity(ex, st, fr, callee, args):
     return args[0]
 
 
 DEFAULT_INTRINSICS = {
+    r"(core|std)::num::<impl \w+>::\w+": _i_num_method,
     r"<(core|std)::ops::Range<\w+> as (core|std)::iter::IntoIterator>::into_iter": _i_identity,
     r"<\[\w+\] as (core|std)::ops::Index(Mut)?<(core|std)::ops::Range\w*(<usize>)?>>::index(_mut)?": _i_slice_index,
     r"<\w+ as (std|core)::iter::Step>::forward_unchecked": _i_step_forward,
